@@ -1,6 +1,7 @@
 package main
 
 import (
+	"fmt"
 	"go/ast"
 	"go/token"
 	"go/types"
@@ -475,4 +476,133 @@ func rc7eCommitAfterChecks(w *World) {
 	}
 	w.floor("functions that take options off the uninterpreted list", nFuncs, 1)
 	w.floor("exits through a lenience-aware wrapper in those functions", nExits, 3)
+}
+
+// RH8b (C21): a silent failure is always a *reported* failure. The value builders of the
+// interpreter (messageLiteralValue and friends) return "no value, no error" after a problem was
+// handed to one of the lenience-aware wrappers; interpretOptions learns that an option could not
+// be interpreted only from interp.lenientErrReported, which only those wrappers set. A local
+// failure flag (`hadError = true`) that is set on a path with no such report therefore makes the
+// option vanish in lenient / unlinked mode: it counts as interpreted, is dropped from the
+// uninterpreted list, and contributes no value. Every assignment `<flag> = true` to a boolean
+// local whose truth makes the function return the zero value with a nil error must be preceded,
+// in its own block, by a statement that calls a lenience-fallible function.
+func rh8bSilentFailureIsReported(w *World) {
+	w.rule("RH8b")
+	p := w.pkg("options")
+	if p == nil {
+		return
+	}
+	info := p.TypesInfo
+	fallible := lenienceFallible(w, p)
+	n := 0
+	for _, b := range allFuncBodies(p) {
+		if b.Lit != nil {
+			continue
+		}
+		// failure flags: bool locals tested by `if flag { return <zero…>, nil }`
+		flags := map[types.Object]bool{}
+		ast.Inspect(b.Body, func(x ast.Node) bool {
+			ifs, ok := x.(*ast.IfStmt)
+			if !ok || len(ifs.Body.List) != 1 {
+				return true
+			}
+			id, ok := ast.Unparen(ifs.Cond).(*ast.Ident)
+			if !ok {
+				return true
+			}
+			ret, ok := ifs.Body.List[0].(*ast.ReturnStmt)
+			if !ok || len(ret.Results) == 0 || !isNilIdent(info, ret.Results[len(ret.Results)-1]) {
+				return true
+			}
+			if v, ok := info.Uses[id].(*types.Var); ok {
+				if bt, ok := v.Type().Underlying().(*types.Basic); ok && bt.Kind() == types.Bool {
+					flags[v] = true
+				}
+			}
+			return true
+		})
+		if len(flags) == 0 {
+			continue
+		}
+		// must-dataflow per loop iteration: "reported" after a node that calls a lenience-fallible
+		// function; forgotten at the first node of every loop body (a report made for an earlier
+		// element says nothing about this one)
+		var loopFirst []ast.Stmt
+		ast.Inspect(b.Body, func(x ast.Node) bool {
+			switch l := x.(type) {
+			case *ast.ForStmt:
+				if len(l.Body.List) > 0 {
+					loopFirst = append(loopFirst, l.Body.List[0])
+				}
+			case *ast.RangeStmt:
+				if len(l.Body.List) > 0 {
+					loopFirst = append(loopFirst, l.Body.List[0])
+				}
+			}
+			return true
+		})
+		g := buildCFG(info, b.Body)
+		earliest := map[ast.Stmt]ast.Node{}
+		for _, blk := range g.Blocks {
+			for _, nd := range blk.Nodes {
+				for _, st := range loopFirst {
+					if nd.Pos() >= st.Pos() && nd.End() <= st.End() {
+						if cur := earliest[st]; cur == nil || nd.Pos() < cur.Pos() {
+							earliest[st] = nd
+						}
+					}
+				}
+			}
+		}
+		resetAt := map[ast.Node]bool{}
+		for _, nd := range earliest {
+			resetAt[nd] = true
+		}
+		hasFallible := func(nd ast.Node) bool {
+			hit := false
+			ast.Inspect(nd, func(y ast.Node) bool {
+				if _, isLit := y.(*ast.FuncLit); isLit {
+					return false
+				}
+				if c, ok := y.(*ast.CallExpr); ok {
+					if f := callee(info, c); f != nil && fallible[f] {
+						hit = true
+					}
+				}
+				return !hit
+			})
+			return hit
+		}
+		d := &Dataflow{G: g, Must: true, Init: Facts{}}
+		d.Transfer = func(nd ast.Node, in Facts) Facts {
+			out := in
+			if resetAt[nd] {
+				out = out.without("reported")
+			}
+			if hasFallible(nd) {
+				out = out.with("reported")
+			}
+			return out
+		}
+		d.Run()
+		d.Walk(func(_ *cfg.Block, nd ast.Node, before Facts) {
+			as, ok := nd.(*ast.AssignStmt)
+			if !ok || len(as.Lhs) != 1 || len(as.Rhs) != 1 || render(as.Rhs[0]) != "true" {
+				return
+			}
+			id, ok := as.Lhs[0].(*ast.Ident)
+			if !ok || !flags[info.Uses[id]] {
+				return
+			}
+			n++
+			key := fmt.Sprintf("silent-failure-reported|%s|%s", b.Label, w.pos(as.Pos()))
+			if before["reported"] {
+				w.ok(key, as.Pos(), "on every path of this iteration the failure flag is set only after the problem was handed to a lenience-aware error wrapper (or to a callee that reaches one)")
+			} else {
+				w.violation(key, as.Pos(), id.Name+" = true makes "+b.Label+" return no value and a nil error, but on some path of this iteration nothing went through handleError / handleErrorf / handleErrorWithPos: in lenient / unlinked mode interp.lenientErrReported stays false, interpretOptions takes the option for interpreted, drops it from uninterpreted_option and stores nothing — the option vanishes")
+			}
+		})
+	}
+	w.floor("failure-flag assignments in the options interpreter", n, 8)
 }
